@@ -10,6 +10,15 @@ PROP = "C06"
 def run(tier):
     c = Check(PROP, tier)
     cov = objcommon.run(c, tier)
+    # CBox / CSliceBox / typed objects: dropped directly, after into_opaque, unwrapped with into_inner;
+    # heap-owning and zero-sized payloads, empty and non-empty boxed slices (spec/Boxes.tla)
+    rt = os.path.join(cargo_build("rt"), "rt")
+    j, n = lib.gen_step(c, "Gen_Boxes", "Gen_Boxes.cfg" if tier == "quick" else "Gen_Boxes_thorough.cfg", "gen_boxes")
+    b, s = lib.replay_step(c, rt, ["boxes"], j, parts=4, what="CBox/CSliceBox lifecycle diverges from the specification")
+    cov["behaviours_replayed"] += b
+    cov["replay_steps"] += s
+    cov["distinct_nontrivial"] += n
+    cov["boxes"] = "%d behaviours of Boxes.tla (CBox from T/Box<T>/(T,NoContext), CSliceBox of length 0/1/3, typed objects; heavy and zero-sized payloads; into_opaque, into_inner, DerefMut writes, drop in any form)" % b
     c.finish(cov)
 
 
